@@ -640,9 +640,9 @@ fn expand_regex_assertion(value_expr: &TokenStream, pattern: &PatternRegex) -> T
     quote_spanned! {span=>
         {
             use ::assert_struct::Like;
-            let re = ::assert_struct::__macro_support::Regex::new(#pattern_str)
+            let __assert_struct_re = ::assert_struct::__macro_support::Regex::new(#pattern_str)
                 .expect(concat!("Invalid regex pattern: ", #pattern_str));
-            if !(#value_expr).like(&re) {
+            if !(#value_expr).like(&__assert_struct_re) {
                 #error_push
             }
         }
